@@ -124,6 +124,18 @@ func TestMarshal(t *testing.T) {
 		if w, g := render(pins), render(got); w != g {
 			t.Fatalf("marshal/unmarshal changed the pinset: %s", cmpx.Diff(w, g))
 		}
+		for _, p := range pins {
+			q, err := b.Get(ctx, p.Cid)
+			if err != nil {
+				t.Fatalf("pin %s is listed after Unmarshal but Get fails: %v", p.Cid, err)
+			}
+			if w, g := cmpx.PinStr(p, norm), cmpx.PinStr(q, norm); w != g {
+				t.Fatalf("Get after Unmarshal: %s", cmpx.Diff(w, g))
+			}
+			if ok, _ := b.Has(ctx, p.Cid); !ok {
+				t.Fatalf("Has(%s) false after Unmarshal", p.Cid)
+			}
+		}
 		leg.Case(render(pins), pinsetNontrivial(pins))
 	})
 }
